@@ -1,4 +1,5 @@
 import Proofs.NameOrder5
+import Proofs.NameText
 /-!
 # C06 — Name comparison is the DNSSEC canonical order, coherent with equality and hash
 
@@ -109,10 +110,9 @@ Full statement ("relativizing a name to an origin and derelativizing again resto
       (h : isAbs a = true ∨ isSubdomain a o = true) :
       ∃ r a', relativize a o = .ok r ∧ derelativize r o = .ok a' ∧ nameEq a' a = true ∧ (o <:+ a → a' = a)
 
-This is FALSE for the code as it is at the empty origin: every relative name is a subdomain of the empty
-name, and `self[: -len(origin)]` is `self[:0]` for `len(origin) = 0`, so `relativize` returns the empty name
-(`relativize_empty_origin_counterexample` below; recorded as a known finding).  The proved theorem carries
-the explicit guard `o ≠ []` on the relative branch.
+It was FALSE for the pinned code at the empty origin (`self[: -len(origin)]` is `self[:0]` for
+`len(origin) = 0`); that defect is repaired in /repo (`fix:` commit), the model follows the repaired code and
+the full statement is proved below (`relativize_derelativize`), via the guarded lemma kept next to it.
 -/
 
 /-- "relativizing a name to an origin and derelativizing again restores it": for every absolute name and
@@ -127,13 +127,35 @@ theorem relativize_derelativize_partial (a o : Name) (ha : WfName a)
   obtain ⟨r, a', h1, h2, h3, h4⟩ := rel_derel a o ha h
   exact ⟨r, a', h1, h2, (nameEq_iff a' a).2 h3, h4⟩
 
-/-- the excluded case is a genuine failure of the code as it is (Python's `-0` slice bound): the relative
-name `a` is a subdomain of the empty origin, relativizing yields the empty name, and derelativizing does not
-bring `a` back. -/
-theorem relativize_empty_origin_counterexample :
-    isSubdomain [[97]] [] = true ∧ relativize [[97]] [] = .ok [] ∧ derelativize [] [] = .ok [] ∧
-      nameEq [] [[97]] = false :=
-  ⟨by decide, by rfl, by rfl, by decide⟩
+/-- The full statement, including the empty origin (true since the `fix:` commit that slices by
+`len(self) - len(origin)`; before it `self[: -0]` was `self[:0]` and a relative name relativized to the
+empty origin lost all its labels — the former counter-example `relativize [[97]] [] = .ok []`). -/
+theorem relativize_derelativize (a o : Name) (ha : WfName a)
+    (h : isAbs a = true ∨ isSubdomain a o = true) :
+    ∃ r a', relativize a o = .ok r ∧ derelativize r o = .ok a' ∧ nameEq a' a = true ∧
+      (o <:+ a → a' = a) := by
+  by_cases ho : o = []
+  · rcases h with habs | hsub
+    · exact relativize_derelativize_partial a o ha (Or.inl habs)
+    · subst ho
+      have hrel : isAbs a = false := by
+        cases hab : isAbs a with
+        | false => rfl
+        | true =>
+          exfalso
+          have hE : isAbs ([] : Name) = false := by decide
+          have : isSubdomain a [] = false := by
+            unfold isSubdomain fullcompare
+            simp [hab, hE]
+          rw [this] at hsub; simp at hsub
+      have hv := validate_of_wf a ha
+      refine ⟨a, a, ?_, ?_, ?_, fun _ => rfl⟩
+      · simp [relativize, hsub, sliceToNeg, hv]
+      · simp [derelativize, hrel, concatenate, hv]
+      · exact (nameEq_iff a a).2 rfl
+  · rcases h with habs | hsub
+    · exact relativize_derelativize_partial a o ha (Or.inl habs)
+    · exact relativize_derelativize_partial a o ha (Or.inr ⟨hsub, ho⟩)
 
 /-- the other composition: derelativizing a relative name against an absolute origin and relativizing
 again is the identity, byte for byte. -/
